@@ -15,6 +15,17 @@ package main
 //	  boss   *string  nullable fk index -> things.minions (self reference)
 //	  groups          link collection <-> owners.members
 //	  minions         back-references of things.boss
+//
+//	store "things_x": EXTENDED child store of things          store "things_p": PLAIN child store of things
+//	(data bucket "ext" inside the thing's entity bucket)       (data bucket "pl")
+//	  badge   string   unique index (non-null)                   code  string   unique index (non-null)
+//	  tag     *string  nullable unique index                     nick  *string  nullable unique index
+//	  caps    []string set index                                 marks []string set index
+//	  sponsor string   fk constraint (non-null) -> owners
+//
+//	A thing may have neither, one or both kinds of child data.  The child stores' index buckets live under the
+//	parent's entity type (indexes/things/<field>); the dump, the corruptions and the reports name them by the
+//	child store ("things_x.badge").
 
 import (
 	"bytes"
@@ -32,10 +43,38 @@ import (
 )
 
 const (
-	c09Root   = "u"
-	c09Things = "things"
-	c09Owners = "owners"
+	c09Root    = "u"
+	c09Things  = "things"
+	c09Owners  = "owners"
+	c09ThingsX = "things_x"
+	c09ThingsP = "things_p"
 )
+
+// data bucket of a child store inside the parent's entity bucket
+var c09ChildPath = map[string]string{c09ThingsX: "ext", c09ThingsP: "pl"}
+
+// the field that decides which child store an index / report belongs to
+var c09ChildField = map[string]string{"badge": c09ThingsX, "tag": c09ThingsX, "caps": c09ThingsX, "sponsor": c09ThingsX,
+	"code": c09ThingsP, "nick": c09ThingsP, "marks": c09ThingsP}
+
+// c09EntType: the entity type (= name of the entities bucket and of the index directory) of a model store
+func c09EntType(store string) string {
+	if _, ok := c09ChildPath[store]; ok {
+		return c09Things
+	}
+	return store
+}
+
+// c09ModelIdx: "things.badge" (as the code names it) -> "things_x.badge"
+func c09ModelIdx(idx string) string {
+	p := strings.SplitN(idx, ".", 2)
+	if len(p) == 2 && p[0] == c09Things {
+		if st, ok := c09ChildField[p[1]]; ok {
+			return st + "." + p[1]
+		}
+	}
+	return idx
+}
 
 type c09Thing struct {
 	Id    string
@@ -77,6 +116,67 @@ func (c09ThingStrategy) PersistEntity(e *c09Thing, ctx *boltz.PersistContext) {
 	ctx.SetStringP("boss", e.Boss)
 }
 
+type c09ThingX struct {
+	c09Thing
+	Badge   string
+	Tag     *string
+	Sponsor string
+	Caps    []string
+}
+
+type c09ThingP struct {
+	c09Thing
+	Code  string
+	Nick  *string
+	Marks []string
+}
+
+type c09XStrategy struct{ parent *boltz.BaseStore[*c09Thing] }
+
+func (s *c09XStrategy) NewEntity() *c09ThingX { return new(c09ThingX) }
+func (s *c09XStrategy) FillEntity(e *c09ThingX, b *boltz.TypedBucket) {
+	_, err := s.parent.LoadEntity(b.Tx(), e.Id, &e.c09Thing)
+	b.SetError(err)
+	e.Badge = b.GetStringWithDefault("badge", "")
+	e.Tag = b.GetString("tag")
+	e.Sponsor = b.GetStringWithDefault("sponsor", "")
+	e.Caps = b.GetStringList("caps")
+}
+func (s *c09XStrategy) PersistEntity(e *c09ThingX, ctx *boltz.PersistContext) {
+	s.parent.GetEntityStrategy().PersistEntity(&e.c09Thing, ctx.GetParentContext())
+	ctx.SetString("badge", e.Badge)
+	ctx.SetStringP("tag", e.Tag)
+	ctx.SetString("sponsor", e.Sponsor)
+	ctx.SetStringList("caps", e.Caps)
+}
+
+type c09PStrategy struct{ parent *boltz.BaseStore[*c09Thing] }
+
+func (s *c09PStrategy) NewEntity() *c09ThingP { return new(c09ThingP) }
+func (s *c09PStrategy) FillEntity(e *c09ThingP, b *boltz.TypedBucket) {
+	_, err := s.parent.LoadEntity(b.Tx(), e.Id, &e.c09Thing)
+	b.SetError(err)
+	e.Code = b.GetStringWithDefault("code", "")
+	e.Nick = b.GetString("nick")
+	e.Marks = b.GetStringList("marks")
+}
+func (s *c09PStrategy) PersistEntity(e *c09ThingP, ctx *boltz.PersistContext) {
+	s.parent.GetEntityStrategy().PersistEntity(&e.c09Thing, ctx.GetParentContext())
+	ctx.SetString("code", e.Code)
+	ctx.SetStringP("nick", e.Nick)
+	ctx.SetStringList("marks", e.Marks)
+}
+
+func c09ParentMapper(entity boltz.Entity) boltz.Entity {
+	switch e := entity.(type) {
+	case *c09ThingX:
+		return &e.c09Thing
+	case *c09ThingP:
+		return &e.c09Thing
+	}
+	return entity
+}
+
 type c09Owner struct {
 	Id    string
 	Label *string
@@ -98,6 +198,8 @@ func (c09OwnerStrategy) PersistEntity(e *c09Owner, ctx *boltz.PersistContext) {
 
 type c09Stores struct {
 	a      *boltz.BaseStore[*c09Thing]
+	ax     *boltz.BaseStore[*c09ThingX]
+	ap     *boltz.BaseStore[*c09ThingP]
 	b      *boltz.BaseStore[*c09Owner]
 	groups boltz.LinkCollection
 	member boltz.LinkCollection
@@ -105,16 +207,21 @@ type c09Stores struct {
 
 // field inventory, in the order the canonical dump prints them (the Lean driver relies on it)
 var c09Scalars = map[string][]string{
-	c09Things: {"name", "alias", "owner", "home", "dep", "req", "boss"},
-	c09Owners: {"label"},
+	c09Things:  {"name", "alias", "owner", "home", "dep", "req", "boss"},
+	c09Owners:  {"label"},
+	c09ThingsX: {"badge", "tag", "sponsor"},
+	c09ThingsP: {"code", "nick"},
 }
 var c09Sets = map[string][]string{
-	c09Things: {"roles", "groups", "minions"},
-	c09Owners: {"things", "residents", "members"},
+	c09Things:  {"roles", "groups", "minions"},
+	c09Owners:  {"things", "residents", "members"},
+	c09ThingsX: {"caps"},
+	c09ThingsP: {"marks"},
 }
-var c09UniqueIdx = []string{"things.name", "things.alias", "owners.label"}
-var c09SetIdx = []string{"things.roles"}
-var c09StoreOrder = []string{c09Things, c09Owners}
+var c09UniqueIdx = []string{"things.name", "things.alias", "things_x.badge", "things_x.tag", "things_p.code", "things_p.nick",
+	"owners.label"}
+var c09SetIdx = []string{"things.roles", "things_x.caps", "things_p.marks"}
+var c09StoreOrder = []string{c09Things, c09ThingsX, c09ThingsP, c09Owners}
 
 func c09NewStores() *c09Stores {
 	s := &c09Stores{}
@@ -163,8 +270,68 @@ func c09NewStores() *c09Stores {
 	symMembers := b.AddFkSetSymbol("members", a)
 	s.groups = a.AddLinkCollection(symGroups, symMembers)
 	s.member = b.AddLinkCollection(symMembers, symGroups)
+
+	// the child stores of things, declared the way boltz/manager_store_test.go declares one
+	notFound := func(id string) error { return boltz.NewNotFoundError(c09Things, "id", id) }
+	s.ax = boltz.NewBaseStore(boltz.StoreDefinition[*c09ThingX]{
+		EntityStrategy:  &c09XStrategy{parent: a},
+		BasePath:        []string{c09ChildPath[c09ThingsX]},
+		Parent:          a,
+		ParentMapper:    c09ParentMapper,
+		EntityNotFoundF: notFound,
+	}).Extended()
+	s.ax.InitImpl(s.ax)
+	s.ap = boltz.NewBaseStore(boltz.StoreDefinition[*c09ThingP]{
+		EntityStrategy:  &c09PStrategy{parent: a},
+		BasePath:        []string{c09ChildPath[c09ThingsP]},
+		Parent:          a,
+		ParentMapper:    c09ParentMapper,
+		EntityNotFoundF: notFound,
+	})
+	s.ap.InitImpl(s.ap)
+	ax, ap := s.ax, s.ap
+	a.RegisterChildStoreStrategy(&boltz.ChildStoreUpdateHandler[*c09Thing, *c09ThingX]{
+		Store: ax,
+		Mapper: func(ctx boltz.MutateContext, parent *c09Thing) (*c09ThingX, bool) {
+			if !ax.IsEntityPresent(ctx.Tx(), parent.Id) {
+				return nil, false
+			}
+			child, found, _ := ax.FindById(ctx.Tx(), parent.Id)
+			if !found || child == nil {
+				return nil, false
+			}
+			child.c09Thing = *parent
+			return child, true
+		},
+	})
+	a.RegisterChildStoreStrategy(&boltz.ChildStoreUpdateHandler[*c09Thing, *c09ThingP]{
+		Store: ap,
+		Mapper: func(ctx boltz.MutateContext, parent *c09Thing) (*c09ThingP, bool) {
+			if !ap.IsEntityPresent(ctx.Tx(), parent.Id) {
+				return nil, false
+			}
+			child, found, _ := ap.FindById(ctx.Tx(), parent.Id)
+			if !found || child == nil {
+				return nil, false
+			}
+			child.c09Thing = *parent
+			return child, true
+		},
+	})
+	a.GrantSymbols(ax)
+	ax.AddUniqueIndex(ax.AddSymbol("badge", ast.NodeTypeString))
+	ax.AddNullableUniqueIndex(ax.AddSymbol("tag", ast.NodeTypeString))
+	ax.AddSetIndex(ax.AddSetSymbol("caps", ast.NodeTypeString))
+	ax.AddFkConstraint(ax.AddFkSymbol("sponsor", b), false, boltz.CascadeNone)
+	a.GrantSymbols(ap)
+	ap.AddUniqueIndex(ap.AddSymbol("code", ast.NodeTypeString))
+	ap.AddNullableUniqueIndex(ap.AddSymbol("nick", ast.NodeTypeString))
+	ap.AddSetIndex(ap.AddSetSymbol("marks", ast.NodeTypeString))
 	return s
 }
+
+// the stores in the order the harness runs their CheckIntegrity (= order of the model's schema)
+func (s *c09Stores) all() []boltz.Store { return []boltz.Store{s.a, s.ax, s.ap, s.b} }
 
 type c09Db struct {
 	dir string
@@ -189,6 +356,8 @@ func c09Open() *c09Db {
 	err = db.Update(func(tx *bbolt.Tx) error {
 		eh := &errorz.ErrorHolderImpl{}
 		d.st.a.InitializeIndexes(tx, eh)
+		d.st.ax.InitializeIndexes(tx, eh)
+		d.st.ap.InitializeIndexes(tx, eh)
 		d.st.b.InitializeIndexes(tx, eh)
 		// the entity buckets exist from the start (as after the first Create in a real deployment)
 		if _, err := tx.Bucket([]byte(c09Root)).CreateBucketIfNotExists([]byte(c09Things)); err != nil {
@@ -242,10 +411,23 @@ func c09Typed(s string) []byte { return append([]byte{byte(boltz.TypeString)}, [
 //	EF <store> <id> <field> <v|~>   raw write of a scalar field of an existing entity
 //	EA <store> <id> <set> <elem>    raw add to a set bucket of an existing entity (bucket created)
 //	ED <store> <id> <set> <elem>    raw delete from a set bucket of an existing entity
+//	XD <child store> <id>           delete the child-store data bucket of an existing thing (it stops being a member)
+//	XC <child store> <id>           create an empty child-store data bucket (a member without any field)
+//
+// <store> may be a child store: the entity is then the child's data bucket inside the thing's bucket (no-op for
+// a thing without that data); <idx> "things_x.badge" is the bucket indexes/things/badge.
+func c09EntityBucket(tx *bbolt.Tx, store, id string) *bbolt.Bucket {
+	eb := c09Bucket(tx, c09Root, c09EntType(store), id)
+	if path, ok := c09ChildPath[store]; ok && eb != nil {
+		return eb.Bucket([]byte(path))
+	}
+	return eb
+}
+
 func c09Corrupt(tx *bbolt.Tx, f []string) error {
 	idxBucket := func(idx string) *bbolt.Bucket {
 		p := strings.SplitN(idx, ".", 2)
-		return c09Bucket(tx, c09Root, boltz.IndexesBucket, p[0], p[1])
+		return c09Bucket(tx, c09Root, boltz.IndexesBucket, c09EntType(p[0]), p[1])
 	}
 	switch f[0] {
 	case "UP":
@@ -297,15 +479,25 @@ func c09Corrupt(tx *bbolt.Tx, f []string) error {
 			}
 			return b.Put(key, []byte("junk"))
 		}
+	case "XD":
+		if eb := c09Bucket(tx, c09Root, c09Things, fromWire(f[2])); eb != nil {
+			if path := []byte(c09ChildPath[f[1]]); eb.Bucket(path) != nil {
+				return eb.DeleteBucket(path)
+			}
+		}
+	case "XC":
+		if eb := c09Bucket(tx, c09Root, c09Things, fromWire(f[2])); eb != nil {
+			_, _ = eb.CreateBucketIfNotExists([]byte(c09ChildPath[f[1]]))
+		}
 	case "EF":
-		if eb := c09Bucket(tx, c09Root, f[1], fromWire(f[2])); eb != nil {
+		if eb := c09EntityBucket(tx, f[1], fromWire(f[2])); eb != nil {
 			if f[4] == "~" {
 				return eb.Put([]byte(f[3]), []byte{byte(boltz.TypeNil)})
 			}
 			return eb.Put([]byte(f[3]), c09Typed(fromWire(f[4])))
 		}
 	case "EA":
-		if eb := c09Bucket(tx, c09Root, f[1], fromWire(f[2])); eb != nil {
+		if eb := c09EntityBucket(tx, f[1], fromWire(f[2])); eb != nil {
 			sb, err := eb.CreateBucketIfNotExists([]byte(f[3]))
 			if err != nil {
 				return nil
@@ -313,7 +505,7 @@ func c09Corrupt(tx *bbolt.Tx, f []string) error {
 			return sb.Put(c09Typed(fromWire(f[4])), nil)
 		}
 	case "ED":
-		if eb := c09Bucket(tx, c09Root, f[1], fromWire(f[2])); eb != nil {
+		if eb := c09EntityBucket(tx, f[1], fromWire(f[2])); eb != nil {
 			if sb := eb.Bucket([]byte(f[3])); sb != nil {
 				return sb.Delete(c09Typed(fromWire(f[4])))
 			}
@@ -406,17 +598,26 @@ func c09StateDump(tx *bbolt.Tx) string {
 		return "=" + strings.Join(el, ",")
 	}
 	for _, store := range c09StoreOrder {
-		sb := c09Bucket(tx, c09Root, store)
+		sb := c09Bucket(tx, c09Root, c09EntType(store))
 		if sb == nil {
 			continue
 		}
+		childPath, isChild := c09ChildPath[store]
 		c := sb.Cursor()
 		for id, v := c.First(); id != nil; id, v = c.Next() {
 			if v != nil {
-				out = append(out, "J", store, toWire(string(id)))
+				if !isChild {
+					out = append(out, "J", store, toWire(string(id)))
+				}
 				continue
 			}
 			eb := sb.Bucket(id)
+			if isChild {
+				// a child store's record: the data bucket inside the thing's bucket, if the thing has one
+				if eb = eb.Bucket([]byte(childPath)); eb == nil {
+					continue
+				}
+			}
 			out = append(out, "E", store, toWire(string(id)))
 			for _, f := range c09Scalars[store] {
 				raw := eb.Get([]byte(f))
@@ -441,7 +642,7 @@ func c09StateDump(tx *bbolt.Tx) string {
 	}
 	for _, idx := range c09UniqueIdx {
 		p := strings.SplitN(idx, ".", 2)
-		b := c09Bucket(tx, c09Root, boltz.IndexesBucket, p[0], p[1])
+		b := c09Bucket(tx, c09Root, boltz.IndexesBucket, c09EntType(p[0]), p[1])
 		var ent []string
 		if b != nil {
 			c := b.Cursor()
@@ -458,7 +659,7 @@ func c09StateDump(tx *bbolt.Tx) string {
 	}
 	for _, idx := range c09SetIdx {
 		p := strings.SplitN(idx, ".", 2)
-		b := c09Bucket(tx, c09Root, boltz.IndexesBucket, p[0], p[1])
+		b := c09Bucket(tx, c09Root, boltz.IndexesBucket, c09EntType(p[0]), p[1])
 		var ent []string
 		if b != nil {
 			c := b.Cursor()
